@@ -66,6 +66,42 @@ def candidateIndex {σ : Type} (G : Gen σ) (kind : Kind) (seed? : Option Int)
     | none => .error .notEnough
     | some c => .ok (select G kind s c.toNat sched g0).1
 
+/-! ### `getSortedProducersWithRandom`: the random candidate takes the last normal seat -/
+
+/-- element `i` moved to position `pos ≤ i`, everything else in order
+    (`append(l[:pos], l[i], l[pos:i]..., l[i+1:]...)`) -/
+def moveTo {α : Type} (l : List α) (pos i : Nat) : List α :=
+  match l[i]? with
+  | some x => l.take pos ++ [x] ++ (l.drop pos).take (i - pos) ++ l.drop (i + 1)
+  | none => l
+
+/-- `LastRandomCandidateHeight` / `LastRandomCandidateOwner` -/
+structure LastRandom where
+  height : Nat
+  owner : List Nat
+  deriving DecidableEq, Repr
+
+/-- `getSortedProducersWithRandom` on the sorted owner keys (all producers active, heights at or
+    above `NoCRCDPOSNodeHeight`).  Within `period` blocks of the last draw the previous candidate
+    keeps the seat if it still ranks behind the normal seats; otherwise a new candidate is drawn
+    (`height - last.height` is a `uint32` subtraction). -/
+def withRandom {σ : Type} (G : Gen σ) (kind : Kind) (seed? : Option Int) (owners : List (List Nat))
+    (unclaimed normal cands : Int) (period height : Nat) (last : LastRandom)
+    (sched : List EnvOp) (g0 : σ) : Except Err (List (List Nat) × LastRandom) :=
+  let seat := (unclaimed + normal - 1).toNat
+  let keep : Option Nat :=
+    if last.height ≠ 0 ∧ (height + 4294967296 - last.height) % 4294967296 < period then
+      match owners.findIdx? (· == last.owner) with
+      | some i => if (i : Int) < unclaimed + normal - 1 then none else some i
+      | none => none
+    else none
+  match keep with
+  | some i => .ok (moveTo owners seat i, last)
+  | none =>
+    match candidateIndex G kind seed? owners.length unclaimed normal cands sched g0 with
+    | .error e => .error e
+    | .ok idx => .ok (moveTo owners seat (seat + idx), ⟨height, owners.getD (seat + idx) []⟩)
+
 /-! ### the DPoS v2 selection (`getRandomDposV2Producers`) -/
 
 /-- the selection loop: `c` times draw an index below the current length and move that key to the
